@@ -34,7 +34,14 @@ FUNCS = {
             # I7: octets are neither lost, duplicated nor reordered between message encoding and the socket
             ('pipeline_preserved', 'implies(not closed(self), %s == old(%s))' % (PIPE, PIPE), ['C04', 'C01']),
             ('wire_only_grows', 'slice(ghost.wire_out, 0, length(old(ghost.wire_out))) == old(ghost.wire_out)', ['C04']),
-            ('timers_ok', 'implies(not closed(self), timers_ok(self))', []),
+            ('timers_ok', 'timers_ok(self)', []),
+            ('timers_cleared_if_closed', 'implies(closed(self) and not old(closed(self)), '
+                                         'self._keepalive_timer_id is None and self._idle_timer_id is None and '
+                                         'self._Connection__s_tls is None)', []),
+            ('timers_kept_otherwise', 'implies(not closed(self), '
+                                      'eqv(self._keepalive_timer_id, old(self._keepalive_timer_id)) and '
+                                      'eqv(self._idle_timer_id, old(self._idle_timer_id)) and '
+                                      'eqv(self._Connection__s_tls, old(self._Connection__s_tls)))', []),
         ],
     ),
     'tcpcl.session:Connection.secure': dict(
